@@ -138,6 +138,8 @@ structure Req where
   attrs : List (Nat × Nat)          -- defined (create) / required (open) key-value pairs
   keys : List Nat                   -- required keys (open only)
   entries : Nat                     -- blackboard creator: number of `add` calls
+  lateFail : Bool                   -- the creation of the service resource will be refused (blackboard: the same key added twice;
+                                    -- publish-subscribe / request-response: flatbuffer payload without a schema file)
 deriving Repr, Inhabited
 
 structure Key where
@@ -269,6 +271,16 @@ def preCheck (p : Pat) (r : Req) (vals : List Nat) : Option String :=
   | .bb => if r.entries == 0 then some "NoEntriesProvided" else none
   | _ => none
 
+/-- `create_service_resource` (builder/mod.rs:720) fails: this happens AFTER the service tag and the static config
+were created and unlocked; the error of the resource (resource/blackboard.rs:391-434 `ServiceInCorruptedState`,
+resource/type_definition.rs:39-58 `UnableToAcquireTypeDefinition`) is returned and everything is rolled back.
+Event services have no resource. -/
+def lateErr : Pat → String
+  | .bb => "ServiceInCorruptedState"
+  | _ => "UnableToAcquireTypeDefinition"
+
+def lateFails (p : Pat) (r : Req) : Bool := r.lateFail && p != .ev
+
 /-- a container of the dynamic config with capacity 0: `init` fails, the builder panics ("This should never
 happen"); unreachable since every builder adjusts 0 to 1 (`Iox2.C06.create_never_panics`) -/
 def zeroCap : List Field → List Nat → Bool
@@ -323,6 +335,7 @@ def createCore (w : World) (n h : Nat) (k : Key) (r : Req) : World × Out :=
     match findSvc w k with
     | some _ => (w, .err 0 "AlreadyExists")
     | none =>
+      if lateFails k.p r then (w, .err 0 (lateErr k.p)) else
       if zeroCap (fieldsOf k.p) cfg.vals then (w, .panic) else
       let svc : Svc := { key := k, uid := w.nextUid, cfg := cfg, regs := [n], creq := r }
       let w1 := { w with svcs := svc :: w.svcs, refs := (n, k, 1) :: w.refs, nextUid := w.nextUid + 1 }
